@@ -382,9 +382,13 @@ FormatterToSourceTree::comment(const XMLCh* const   data)
 
 void
 FormatterToSourceTree::cdata(
-            const XMLCh* const  /* ch */,
-            const size_type     /* length */)
+            const XMLCh* const  ch,
+            const size_type     length)
 {
+    // The source tree has no CDATA section nodes, because they
+    // are not part of the data model, but the text still belongs
+    // in the tree.
+    characters(ch, length);
 }
 
 
